@@ -287,6 +287,38 @@ func registerStdIntrinsics(p *Program) {
 		g := sp.Var("IEEETable")
 		return e.load(Pointer{loc: e.globalLoc(g)})
 	}
+	// optional abstraction (check.json "abstract_crc": true): CRC-32 as an uninterpreted step function
+	// folded over the bytes. Equal (table, state, byte stream) => equal checksum, which is all that
+	// code storing and re-verifying its own checksums needs; any property proved for every step
+	// function holds for the real CRC. Counterexamples that need CRC-specific facts do not replay.
+	crcAbstract := func(e *Exec, crc Value, tab Value, p Value) Value {
+		e.ts.DeclareFun("crc32!step", []int{32, 32, 8}, 32)
+		st := crc.(*Term)
+		tabID := e.ts.BV(32, 0)
+		if tp, ok := tab.(Pointer); ok && tp.loc != nil && len(tp.loc.kids) > 1 {
+			if t1, ok := tp.loc.kids[1].val.(*Term); ok {
+				tabID = t1
+			}
+		}
+		var bs []*Term
+		switch pv := p.(type) {
+		case Slice:
+			bs = e.byteSliceTerms(pv)
+		case *Str:
+			bs = e.strBytes(pv)
+		}
+		for _, b := range bs {
+			st = e.ts.App("crc32!step", 32, tabID, st, b)
+		}
+		return st
+	}
+	crcSimpleReal := crcSimple
+	crcSimple = func(e *Exec, fr *frame, crc Value, tab Value, p Value) Value {
+		if e.prog.cfg.AbstractCRC {
+			return crcAbstract(e, crc, tab, p)
+		}
+		return crcSimpleReal(e, fr, crc, tab, p)
+	}
 	I["hash/crc32.ChecksumIEEE"] = func(e *Exec, fr *frame, args []Value) Value {
 		return crcSimple(e, fr, e.ts.BV(32, 0), ieeeTab(e), args[0])
 	}
